@@ -320,9 +320,56 @@ func lateChildCommitted(kinds []int, committed int) input {
 	}
 }
 
+// sharedRefs builds a multipolygon / boundary relation whose way, node and
+// relation members share their numbers (member references are typed: way 5,
+// node 5 and relation 5 are three different children) over annotated closed
+// ways, so that member orientation is computed too. layout permutes the member
+// order; two relation versions, the children edited in between.
+func sharedRefs(typ string, layout int) input {
+	return func() (osm.Ways, osm.Relations, *osm.HistoryDatasource) {
+		d := func(day int) time.Time { return time.Date(2014, 1, 1, 0, 0, 0, 0, time.UTC).AddDate(0, 0, day) }
+		ring := func(id osm.WayID, v int, t time.Time, cw bool, size float64) *osm.Way {
+			pts := [][2]float64{{0, 0}, {size, 0}, {size, size}, {0, size}, {0, 0}}
+			if cw {
+				pts = [][2]float64{{0, 0}, {0, size}, {size, size}, {size, 0}, {0, 0}}
+			}
+			w := &osm.Way{ID: id, Version: v, Visible: true, ChangesetID: osm.ChangesetID(300 + int(id)*10 + v), Timestamp: t}
+			for i, p := range pts {
+				nid := osm.NodeID(100*int(id) + i%4)
+				w.Nodes = append(w.Nodes, osm.WayNode{ID: nid, Version: 1, ChangesetID: 9, Lon: p[0] + float64(id), Lat: p[1] + float64(id)})
+			}
+			return w
+		}
+		ds := &osm.HistoryDatasource{Nodes: map[osm.NodeID]osm.Nodes{}, Ways: map[osm.WayID]osm.Ways{}, Relations: map[osm.RelationID]osm.Relations{}}
+		for _, id := range []int64{5, 6} {
+			ds.Ways[osm.WayID(id)] = osm.Ways{ring(osm.WayID(id), 1, d(10), id == 5, 4), ring(osm.WayID(id), 2, d(150), id != 5, 3)}
+			ds.Nodes[osm.NodeID(id)] = osm.Nodes{
+				{ID: osm.NodeID(id), Version: 1, Visible: true, ChangesetID: osm.ChangesetID(400 + id), Timestamp: d(20), Lat: float64(id), Lon: 1},
+				{ID: osm.NodeID(id), Version: 2, Visible: true, ChangesetID: osm.ChangesetID(410 + id), Timestamp: d(160), Lat: float64(id), Lon: 2}}
+			ds.Relations[osm.RelationID(id)] = osm.Relations{
+				{ID: osm.RelationID(id), Version: 1, Visible: true, ChangesetID: osm.ChangesetID(500 + id), Timestamp: d(30)},
+				{ID: osm.RelationID(id), Version: 2, Visible: true, ChangesetID: osm.ChangesetID(510 + id), Timestamp: d(170)}}
+		}
+		members := osm.Members{
+			{Type: osm.TypeWay, Ref: 5, Role: "outer"}, {Type: osm.TypeNode, Ref: 5, Role: "label"}, {Type: osm.TypeRelation, Ref: 5, Role: "subarea"},
+			{Type: osm.TypeWay, Ref: 6, Role: "inner"}, {Type: osm.TypeNode, Ref: 6, Role: "admin_centre"}, {Type: osm.TypeRelation, Ref: 6, Role: "subarea"},
+		}
+		perm := [][]int{{0, 1, 2, 3, 4, 5}, {1, 0, 2, 4, 3, 5}, {2, 1, 0, 5, 4, 3}, {5, 4, 3, 2, 1, 0}, {1, 2, 4, 5, 0, 3}}[layout]
+		mk := func(v int, t time.Time) *osm.Relation {
+			r := &osm.Relation{ID: 50, Version: v, Visible: true, ChangesetID: osm.ChangesetID(600 + v), Timestamp: t,
+				Tags: osm.Tags{{Key: "type", Value: typ}}}
+			for _, i := range perm {
+				r.Members = append(r.Members, members[i])
+			}
+			return r
+		}
+		return nil, osm.Relations{mk(1, d(100)), mk(2, d(200))}, ds
+	}
+}
+
 func main() {
 	kit.Main("C12", "model_checking", func(r *kit.Run) {
-		r.Rule("every iteration order (all n! orders, free explorer choices) of the child map in core.Compute for (i) every history of edit-alphabet spaces (gen/histsim: way over 3 nodes, relation over 4 members, repeated-node churn way) up to the tier's depth and (ii) a stability family: one way version over 2-4 children (one repeated) with 13-24 updates and every pattern of equal one-second timestamps; (iii) a late-child family: two parent versions over 2-3 children whose histories are normal / start after a parent version / contain a deleted version between the parents / are missing / have same-second versions, under four option sets; (v) a mixed-committed family: the late-child histories with a commit time on some versions only; (iv) a re-annotate family: parents annotated once, then again with ChildFilter over every subset of the children; histories of (i) run under the default options and with IgnoreInconsistency; " +
+		r.Rule("every iteration order (all n! orders, free explorer choices) of the child map in core.Compute for (i) every history of edit-alphabet spaces (gen/histsim: way over 3 nodes, relation over 4 members, repeated-node churn way) up to the tier's depth and (ii) a stability family: one way version over 2-4 children (one repeated) with 13-24 updates and every pattern of equal one-second timestamps; (iii) a late-child family: two parent versions over 2-3 children whose histories are normal / start after a parent version / contain a deleted version between the parents / are missing / have same-second versions, under four option sets; (v) a mixed-committed family: the late-child histories with a commit time on some versions only; (vi) a shared-refs family: a multipolygon / boundary / route relation whose way, node and relation members share their numbers, over annotated rings (orientation is part of the result); (iv) a re-annotate family: parents annotated once, then again with ChildFilter over every subset of the children; histories of (i) run under the default options and with IgnoreInconsistency; " +
 			"oracle: result identical to the canonical-order result (or both fail) and every update list sorted by (index, timestamp, version); non-vacuous = at least one order choice was made and the history has >= 2 updates; states = execution-tree nodes (order choices), transitions = choices taken")
 		r.Assume("vinst replaces only the map range in compute.go (vsched.MapKeys); outside a controlled execution the canonical order is sorted keys")
 		var scs []vexplore.Scenario
@@ -436,6 +483,18 @@ func main() {
 			}
 		}
 		counts["mixed-committed"] = nmix
+		// shared-refs family: way / node / relation members with equal numbers in a
+		// multipolygon or boundary relation (member orientation is annotated too)
+		nshared := 0
+		for _, typ := range []string{"multipolygon", "boundary", "route"} {
+			for layout := 0; layout < 5; layout++ {
+				for _, opt := range []int{0, 1} {
+					add(scenario(fmt.Sprintf("shared-refs type=%s layout=%d", typ, layout), "shared-refs", 6, sharedRefs(typ, layout), opt))
+					nshared++
+				}
+			}
+		}
+		counts["shared-refs"] = nshared
 		// re-annotate family: annotate, then annotate again with a ChildFilter
 		// over every subset of the children (skipped children at lower and at
 		// higher indexes than recomputed ones), every map order of both passes
